@@ -50,9 +50,11 @@ InitTok(cfg, c, p) == 1000 * c + 100 * p + cfg.comps[c].off
 
 (* ----- case space ----- *)
 Pt(hasin, src, sport, inown, pull, hasout, outown, data) ==
-  [hasin |-> hasin, src |-> src, sport |-> sport, inown |-> inown, pull |-> pull, hasout |-> hasout, outown |-> outown, data |-> data, st |-> FALSE]
+  [hasin |-> hasin, src |-> src, sport |-> sport, inown |-> inown, pull |-> pull, hasout |-> hasout, outown |-> outown, data |-> data, st |-> FALSE, dly |-> 0]
 (* st: the slots of the port are static (one publication without time, read by static inputs) *)
 Static(pt) == [pt EXCEPT !.st = TRUE]
+(* dly: the input is fed through a DelayFixed adapter of that many days (breaks the run-phase dependency) *)
+Delayed(pt) == [pt EXCEPT !.dly = 1]
 Cp(ports, off) == [ports |-> ports, off |-> off]
 Cf(comps, order, fam) == [comps |-> comps, order |-> order, fam |-> fam]
 Datas == {"imm", "pulled", "ininfo"}
@@ -77,7 +79,16 @@ HalfStuck(u) == {Cf(<<Cp(<<OutOnly, a>>, 0), Cp(<<InOnly(1, 1, pl), b>>, 0)>>, o
 StaticLane(u) == {Cf(<<Cp(<<Static(OutOnly)>>, 0), Cp(<<Static(InOnly(1, 1, p1)), a>>, o2), Cp(<<Static(InOnly(1, 1, p2)), b>>, 0)>>, ord, "staticlane") :
                     p1 \in BOOLEAN, p2 \in BOOLEAN, a \in Mid(3, 2), b \in {x \in Mid(2, 2) : x.data # "ininfo" /\ x.inown}, o2 \in {0, 1},
                     ord \in {<<1, 2, 3>>, <<3, 2, 1>>, <<2, 1, 3>>}}
-CSpace(f) == CASE f = "lanes" -> Lanes(0) [] f = "cross" -> Cross(0) [] f = "halfstuck" -> HalfStuck(0) [] f = "staticlane" -> StaticLane(0)
+(* feedback loop: M takes its state's metadata from the forcing input and reads F's output through a   *)
+(* delay adapter; F derives its output from M's state.  A ring of components, no ring of exchange items   *)
+(* unless both sides wait for initial data.                                                              *)
+Perm3All == {<<1, 2, 3>>, <<1, 3, 2>>, <<2, 1, 3>>, <<2, 3, 1>>, <<3, 1, 2>>, <<3, 2, 1>>}
+Feedback(u) == {Cf(<<Cp(<<OutOnly>>, o1), Cp(<<m1, m2>>, 0), Cp(<<f1>>, 0)>>, ord, "feedback") :
+                  m1 \in {Pt(TRUE, 1, 1, TRUE, pl, TRUE, oo, d) : pl \in BOOLEAN, oo \in BOOLEAN, d \in {"imm", "ininfo"}},
+                  m2 \in {Delayed(InOnly(3, 1, pl)) : pl \in BOOLEAN},
+                  f1 \in {Pt(TRUE, 2, 1, io, pl, TRUE, oo, d) : io \in BOOLEAN, pl \in BOOLEAN, oo \in BOOLEAN, d \in Datas},
+                  o1 \in {0, 1}, ord \in Perm3All}
+CSpace(f) == CASE f = "feedback" -> Feedback(0) [] f = "lanes" -> Lanes(0) [] f = "cross" -> Cross(0) [] f = "halfstuck" -> HalfStuck(0) [] f = "staticlane" -> StaticLane(0)
 
 (* theorems on the case space (evaluated by Connect2Emit) *)
 ThLfp(cfg) ==
